@@ -11,7 +11,7 @@ from ..runner import Part
 RULE = ("(a) Hypothesis-generated rank-planted problems (as C01) are solved by the four algorithms through GNU_gama::Adj; "
         "defect, x, r, v'Pv, every q_xx(i,j) and every q_bb(i,j) are compared pairwise with a tolerance proportional to the "
         "numpy condition number; regularisation subsets that provably cannot resolve the defect (numpy: sigma_d(G_S) < 1e-10) "
-        "must be refused by every algorithm. (b) generated gama-local networks are adjusted by the real binary with each "
+        "must be refused by every algorithm. Part 'large' (and its relatives): graph-structured sparse problems with 10-40 unknowns and up to ~130 rows (connected components in random numbering, weighted difference / second-difference rows, anchored and floating components = exact defects 0..3, zero columns, covariance blocks up to dimension 10 with any band) through the same oracle. (b) generated gama-local networks are adjusted by the real binary with each "
         "--algorithm and the XML results compared field by field. Non-trivial = singular, banded covariance, proper subset, "
         "or a non-resolving subset; distinct by sha1 of the case.")
 ASSUMPTIONS = ["numpy condition number as the scale of the tolerance",
@@ -208,6 +208,13 @@ PARTS = [
          nontrivial=nontriv, n={"quick": 5000, "thorough": 40000}),
     Part("nonresolving", strategy=lambda: gen_linear.linear_problem(singular_only=True, minx_mode="nonres"),
          oracle=oracle_pairwise, nontrivial=nontriv, n={"quick": 1500, "thorough": 10000}),
+    Part("large", strategy=lambda: gen_linear.graph_problem(), oracle=oracle_pairwise,
+         nontrivial=nontriv, n={"quick": 400, "thorough": 6000},
+         sample=lambda c: {"m": c["m"], "n": c["n"], "d": c["d"], "mode": c["mode"], "minx": c["minx"],
+                           "bands": [b["width"] for b in c["blocks"]]}),
+    Part("nonresolving_large", strategy=lambda: gen_linear.graph_problem(singular_only=True, minx_mode="nonres"),
+         oracle=oracle_pairwise, nontrivial=nontriv, n={"quick": 400, "thorough": 5000},
+         sample=lambda c: {"m": c["m"], "n": c["n"], "d": c["d"], "minx": c["minx"]}),
     Part("network", strategy=net_case, oracle=oracle_network, n={"quick": 3000, "thorough": 25000},
          nontrivial=lambda c: bool(c["net"].get("free") or c["blunder"] or any(cl.get("cov") for cl in c["net"]["clusters"])),
          sample=lambda c: {"free": bool(c["net"].get("free")), "blunder": c["blunder"], "band": c["band"],
